@@ -97,10 +97,11 @@ let c17 f =
     let fx = { fx_bitlist = fixed; fx_farnull = fixed; fx_rd = rdfix } in
     let bt, bd = if same then at, ad else bt, bd in
     let ((r, rla), rlb) = run_equal (nat_of_int 200) (cfg at ad) (cfg bt bd) fx ma ca mb cb same sa sb in
-    let ((spec, ta), tb) = spec_equal wfuel (cfg gen_T "0") (cfg gen_T "0") rdfix ma ca mb cb same sa sb dcap pcap in
+    let ((spec, ta), tb) = spec_equal_v wfuel (cfg gen_T "0") (cfg gen_T "0") rdfix ma ca mb cb same sa sb dcap pcap in
     let spec_s = match spec with
-      | Some b -> if b then "T" else "F"
-      | _ -> "-" in
+      | Some (Some b) -> if b then "T" else "F"
+      | Some None -> "?"          (* complete walks but no decoded value: must not happen *)
+      | None -> "-" in
     Printf.sprintf "%s %s %s %s %s %s" (eout_s r) (dec_of_z rla) (dec_of_z rlb) spec_s (tree_s ta) (tree_s tb)
   | _ -> "bad-case"
 
@@ -114,11 +115,12 @@ let c18 f =
     let res = match run_canon (nat_of_int 200) (cfg t d) fx m s with
       | KOk bs -> "ok:" ^ hex_of_bytes bs
       | KErr -> "E" | KPanic -> "panic" | KFuel -> "fuel" in
-    let (spec, tr) = spec_canon wfuel (cfg gen_T "0") rdfix m s dcap pcap in
+    let (spec, tr) = spec_canon_v wfuel (cfg gen_T "0") rdfix m s dcap pcap in
     let spec_s, flags = match spec with
       | None -> "-", "-"
-      | Some None -> "cap", "-"
-      | Some (Some bs) ->
+      | Some None -> "?", "-"     (* complete walk but no decoded value: must not happen *)
+      | Some (Some None) -> "cap", "-"
+      | Some (Some (Some bs)) ->
         "ok:" ^ hex_of_bytes bs,
         (match spec_recanon bs with
          | Some bs' when bs' = bs -> "R1I1G1P1K1J1"
